@@ -70,10 +70,13 @@ HIST_WINDOWS = [
 HIST_OPS = list(range(len(HIST_WINDOWS))) + ["G"]
 
 
-def observable_full(T, N):
-    """Distinct integers 0..T*N-1 in a scrambled order (11 is coprime to
-    every T*N used)."""
-    return [[(11 * (t * N + n) + 3) % (T * N) for n in range(N)]
+def observable_full(T, N, mult=11):
+    """Distinct integers 0..T*N-1 in a scrambled order (the multiplier is
+    coprime to every T*N used: 11 for the small shapes, the prime 7919 for
+    the scale family)."""
+    import math
+    assert math.gcd(mult, T * N) == 1
+    return [[(mult * (t * N + n) + 3) % (T * N) for n in range(N)]
             for t in range(T)]
 
 
@@ -88,11 +91,11 @@ def grid_points(N, code):
 # --------------------------------------------------------------------------
 
 
-def _new(cls, X, T, lat, lon, cycle, anomalies, window=None):
+def _new(cls, X, T, lat, lon, cycle, anomalies, window=None, time=None):
     from pyunicorn.core import Data, GeoGrid
     from pyunicorn.climate import ClimateData
-    grid = GeoGrid(np.arange(float(T)), np.array(lat), np.array(lon),
-                   silence_level=3)
+    tseq = np.arange(float(T)) if time is None else np.array(time, dtype=float)
+    grid = GeoGrid(tseq, np.array(lat), np.array(lon), silence_level=3)
     Xa = np.array(X, dtype=float)
     if cls == "Data":
         return Data(Xa, grid, window=window, silence_level=3)
@@ -103,20 +106,23 @@ def _new(cls, X, T, lat, lon, cycle, anomalies, window=None):
 class Driver:
     """One implementation object + the reference model, stepped together."""
 
-    def __init__(self, cls, T, N, code, cycle, anomalies):
+    def __init__(self, cls, T, N, code, cycle, anomalies, time=None,
+                 latlon=None, mult=11):
         self.cls, self.T, self.N = cls, T, N
         self.cycle, self.anomalies = cycle, anomalies
-        self.X = observable_full(T, N)
-        self.lat, self.lon = grid_points(N, code)
+        self.X = observable_full(T, N, mult)
+        self.time = (np.arange(float(T)).tolist() if time is None
+                     else [float(t) for t in time])
+        self.lat, self.lon = (grid_points(N, code) if latlon is None
+                              else latlon)
         self.viol, self.excl, self.stats = [], {}, {}
         self.exp_cache = {}
         self.reset()
 
     def reset(self):
         self.obj = _new(self.cls, self.X, self.T, self.lat, self.lon,
-                        self.cycle, self.anomalies)
-        self.mdl = M.Model(self.X, np.arange(float(self.T)).tolist(),
-                           self.lat, self.lon)
+                        self.cycle, self.anomalies, time=self.time)
+        self.mdl = M.Model(self.X, self.time, self.lat, self.lon)
         self.last = None
 
     def count(self, d, k, n=1):
@@ -295,7 +301,7 @@ class Driver:
             w = None if self.last is None or self.last[0] != "set_window" \
                 else self.last[1]
             f = _new(self.cls, self.X, self.T, self.lat, self.lon, self.cycle,
-                     self.anomalies, window=w)
+                     self.anomalies, window=w, time=self.time)
             return np.asarray(getattr(f, meth)())
         except Exception:   # noqa
             return None
@@ -421,6 +427,21 @@ class Driver:
         return tuple(out)
 
 
+def _shrink(viol):
+    """Large observed/expected arrays are recorded by shape and head."""
+    for v in viol:
+        for k in ("observed", "expected"):
+            x = v.get(k)
+            try:
+                a = np.asarray(x, dtype=float)
+            except Exception:   # noqa
+                continue
+            if a.size > 60:
+                v[k] = {"shape": list(a.shape),
+                        "head": a.ravel()[:12].tolist()}
+    return viol
+
+
 def _first_per_key(viol):
     seen, out = set(), []
     for v in viol:
@@ -431,7 +452,7 @@ def _first_per_key(viol):
 
 
 def _result(d, sig, evals, trivial, ntr, ntraces):
-    return {"viol": _first_per_key(d.viol), "evals": evals,
+    return {"viol": _shrink(_first_per_key(d.viol)), "evals": evals,
             "excluded": d.excl, "stats": d.stats, "sig": sig,
             "trivial": trivial, "transitions": ntr, "traces": ntraces}
 
@@ -528,7 +549,84 @@ def fam_months(case):
     return _result(d, repr(sigs), ev, len(set(sigs)) < 2, ntr, 1)
 
 
-FAMILIES = {"window": fam_window, "hist": fam_hist, "months": fam_months}
+# ---- scale: long series, many nodes, time axis of large magnitude ---------
+
+SCALE_N = 40
+AXES = {"plain": (0.0, 1.0, 0.5),          # t0, step, eps (all float32 exact)
+        "hours": (1.9e6, 6.0, 0.5),        # "hours since 1800", 6-hourly:
+                                           # magnitude/spacing 3e5, ulp 0.125
+        "hours17e6": (1.7e7, 6.0, 2.0)}    # beyond 2^24: ulp 2
+
+
+def scale_latlon():
+    lat = [-87.5 + 4.5 * i for i in range(SCALE_N)]
+    lon = [(i * 47.25) % 360.0 - 180.0 for i in range(SCALE_N)]
+    lat[39], lon[39] = lat[3], lon[3]          # a duplicate location
+    return lat, lon
+
+
+def scale_windows(T, axis):
+    """Windows whose time bounds lie on samples, between samples, just
+    outside the record and across the positions 128/256."""
+    t0, dt, eps = AXES[axis]
+    t = lambda k: t0 + dt * k          # noqa
+    a = 100 if T > 141 else 3
+    b = 140 if T > 141 else 10
+    hi = min(258, T - 2)
+    times = [
+        (t(a), t(b)),                          # on samples
+        (t(126) + eps, t(hi) - eps),           # between samples, across 128
+        (t(0) - eps, t(5)),                    # just outside the start
+        (t(T - 3), t(T - 1) + eps),            # just beyond the end
+        (t(7) - eps, t(7) + eps),              # one sample, distinct bounds
+        (t(127), t(128)),                      # two samples across 128
+        (t(7) + eps, t(8) - eps),              # between neighbours: nothing
+        (t(5), t(5)),                          # equal bounds: whole axis
+        (t(T - 1), t(T - 1) + eps),            # the last sample only
+        (t(T - 1) + eps, t(T - 1) + 100 * dt), # entirely outside
+        (t(1), t(T - 2)),                      # all but the two end samples
+    ]
+    spaces = [((0.0, 0.0), (0.0, 0.0)),
+              ((-20.0, 29.5), (-90.0, 90.0)),      # bounds on samples (lat)
+              ((-21.0, 31.0), (-100.5, 120.125)),  # between samples
+              ((-87.5, 88.0), (-180.0, 179.75))]   # exactly the extremes
+    out = []
+    for i, tw in enumerate(times):
+        la, lo = spaces[i % len(spaces)]
+        out.append(_win(tw, la, lo))
+        if i in (3, 7):
+            out.append("G")
+    return out
+
+
+def fam_scale(case):
+    cls, T, axis, cycle, anomalies = case
+    t0, dt, eps = AXES[axis]
+    time = [t0 + dt * k for k in range(T)]
+    d = Driver(cls, T, SCALE_N, 0, cycle, anomalies, time=time,
+               latlon=scale_latlon(), mult=7919)
+    sigs = [d.judge()]
+    ev, ntr = 1, 0
+    for w in scale_windows(T, axis):
+        ok = d.step(w)
+        ntr += 1
+        if not ok:
+            d.reset()
+            continue
+        sigs.append(d.judge())
+        ev += 1
+    for v in d.viol:
+        v["msg"] = "T=%d N=%d time axis %s :: %s" % (T, SCALE_N, axis,
+                                                       v["msg"])
+        # input class: long series / 40 nodes / large-magnitude time axis
+        v["key"] += ":scale" + ("" if axis == "plain" else "-time-magnitude")
+    sig = [(len(x[0]), len(x[1])) + tuple(x[2:]) if isinstance(x, tuple)
+           else x for x in sigs]
+    return _result(d, repr(sig), ev, len(set(map(repr, sig))) < 3, ntr, 1)
+
+
+FAMILIES = {"window": fam_window, "hist": fam_hist, "months": fam_months,
+            "scale": fam_scale}
 
 
 # --------------------------------------------------------------------------
@@ -578,7 +676,11 @@ def run(ctx):
         "Data; every observable judged after every step.  months: time_cycle "
         "12.  A case is non-trivial when at least two different selections "
         "were observed; distinct = distinct sequences of (selection, shapes "
-        "of the derived series)." % (
+        "of the derived series).  scale: T in {130,150,209,300} x 40 nodes, "
+        "time axes k and 1.9e6+6k, 11 windows with bounds on samples, "
+        "between samples, just outside the record and across positions "
+        "128/256, in sequence on one object (Data, ClimateData cycle 12 and "
+        "7)." % (
             POINTS, TIME_CHOICES, LAT_CHOICES, LON_CHOICES, CHOICE_NAMES,
             depth, CYCLES, 6 if thorough else 3))
     # self-test: determinism of the first case
@@ -620,7 +722,21 @@ def run(ctx):
              for code in HIST_GRIDS[3] for a in (False, True)]
     ctx.explore("months", cases, desc="time_cycle 12: "
                 "anomaly_selected_months")
-    ctx.notes.update({"history_depth": depth, "history_ops": 9,
+    # ---- scale
+    Ts = [130, 150, 209, 300] + ([129, 257] if thorough else [])
+    axes = ["plain", "hours"] + (["hours17e6"] if thorough else [])
+    cases = [[cls, T, ax, c, a] for T in Ts for ax in axes
+             for (cls, c, a) in (("Data", 1, False),
+                                 ("ClimateData", 12, False),
+                                 ("ClimateData", 7, True))]
+    cases += [["ClimateData", 40, "hours", 5, False],
+              ["Data", 40, "hours", 1, False]]
+    ctx.explore("scale", cases, chunk=1, desc="T=130..300 samples x 40 "
+                "nodes; time axis 0,1,2.. and 1.9e6+6k (magnitude/spacing "
+                "3e5): 11 windows on/between/just outside samples on one "
+                "object")
+    ctx.notes.update({"scale_T": Ts, "scale_axes": axes,
+                      "history_depth": depth, "history_ops": 9,
                       "menu_windows": 125, "model_states": nstates})
     ctx.assumptions += [
         "window bounds of the menus are single precision numbers, so closed-"
